@@ -432,10 +432,13 @@ func stampWindowID
   loop 1 invariant forall(j, 0, $i, $s[j] != nil ==> dom($s[j], "window_id") && $s[j]["window_id"] == boxof(id, string)) && $s == results
 
 func (*DataProcessor).processWindowBatch
-  props C01 C08
+  props C01 C08 C03 C09
   modifies *
   count adds := Add
+  count resets := Reset
   observe res := GetResults
+  observe resErr := GetResults#1
+  ensures [C01 C08 C03 C09] every-aggregated-batch-ends-with-one-reset-whatever-was-delivered: old(dp.stream.config.WindowConfig.Type) != "global" && $resErr == nil ==> $resets == 1
   before Add rows-are-aggregated-in-batch-order-each-once: $arg1 == batch[$adds].Data && $adds < len(batch)
   before stampWindowID results-of-this-batch-get-this-batchs-interval: $arg0 == $res && $arg1 == batch && $adds == len(batch)
   before Reset accumulators-restart-only-after-the-results-were-taken: $adds == len(batch)
